@@ -28,6 +28,9 @@ def insertion_sites(ctx, fi):
     for n in ast.walk(fi.node):
         if isinstance(n, ast.Assign) and len(n.targets) == 1 and isinstance(n.targets[0], ast.Name) and _is_children(nm, n.value):
             alias[n.targets[0].id] = n.value.value
+        # x = []; obj.children = x : x stays the child list of obj
+        if isinstance(n, ast.Assign) and len(n.targets) == 1 and _is_children(nm, n.targets[0]) and isinstance(n.value, ast.Name):
+            alias[n.value.id] = n.targets[0].value
     for n in ast.walk(fi.node):
         if isinstance(n, ast.Call) and isinstance(n.func, ast.Attribute) and n.func.attr in GROW and isinstance(n.func.value, ast.Name) \
                 and n.func.value.id in alias and n.args:
